@@ -216,6 +216,15 @@ func parseClientHello(buf []byte) (*clientHello, error) {
 		return nil, err
 	}
 	if hello.echExt != nil && hello.echExt.Type == 1 {
+		// Section 5.1: the padding of an EncodedClientHelloInner MUST be all
+		// zeros. Once the decrypted payload has been re-framed as a handshake
+		// message, the padding is what is left of the message after the
+		// extensions.
+		for _, p := range s {
+			if p != 0 {
+				return nil, ErrIllegalParameter
+			}
+		}
 		for _, p := range zeros {
 			if p != 0 {
 				return nil, ErrIllegalParameter
